@@ -12,7 +12,8 @@ from fractions import Fraction
 from functools import lru_cache
 from math import comb
 
-FA_LOG2 = 210  # every single check: FA < 2^-FA_LOG2
+FA_LOG2 = 232  # every single check: FA < 2^-FA_LOG2; a batch of up to 2^32 checks stays below the property's 2^-200
+QMAX = 8        # call-context groups: draws of one call site taken every q-th repetition, q = 1..QMAX
 
 W_BLOCKS, W_HIGH, W_NUMVARS, W_NUMBITS, W_PANIC = 1, 2, 4, 8, 16
 WARN_NAMES = {W_BLOCKS: "block_count", W_HIGH: "bit_beyond_2^n", W_NUMVARS: "num_vars", W_NUMBITS: "num_bits"}
@@ -168,6 +169,35 @@ def check_run(run, shrink_mode=False):
                                  key, threads, n, typ))
     for (t, typ, n), tabs in sorted(groups.items()):
         both_values(tabs, n, f"thread {t}", [t], typ, f"{typ}{n}:thread")
+    # call-context groups ("call-independent"): for a fair generator ANY subsequence selected by
+    # call position alone is fair, so the same two checks apply to the draws one call site of the
+    # workload made on one thread, taken every q-th repetition (phase r), optionally after a warm-up.
+    sites = {}
+    for d in good:
+        sites.setdefault((d["t"], d.get("slot", 0)), []).append(d)
+    ctx_groups = []
+    for (t, slot), ds in sorted(sites.items()):
+        ds.sort(key=lambda d: d.get("rep", 0))
+        n, typ = ds[0]["n"], ds[0]["typ"]
+        if any(d["n"] != n or d["typ"] != typ for d in ds):
+            continue
+        need = n + 1 + FA_LOG2
+        whole_is_group = len(groups.get((t, typ, n), ())) == len(ds)
+        for q in range(1, QMAX + 1):
+            if len(ds) // q < need:
+                break
+            for r in range(q):
+                for warm in (0, 64):
+                    sub = [d["v"] for d in ds if d.get("rep", 0) % q == r and d.get("rep", 0) >= warm]
+                    if len(sub) < need or (q == 1 and warm == 0 and whole_is_group):
+                        continue
+                    where = f"thread {t}, call site {slot}" + (f", every {q}th repetition (phase {r})" if q > 1 else "") + (f", after {warm} warm-up repetitions" if warm else "")
+                    ctx_groups.append((t, typ, n, sub, where))
+    nbefore = len(out)
+    for (t, typ, n, sub, where) in ctx_groups:
+        both_values(sub, n, where, [t], typ, f"{typ}{n}:site")
+        if len(out) > nbefore + 4:
+            break
     for (typ, n), tv in sorted(pools.items()):
         ths = sorted(set(t for t, _ in tv))
         if len(ths) > 1:
@@ -203,6 +233,11 @@ def check_run(run, shrink_mode=False):
             out.append(_viol("duplicates", f"{tname(typ)} n={n} {where}: {bad}{ex}", key, ths or [tabs_with_t[0][0]], n, typ))
     for (t, typ, n), tabs in sorted(groups.items()):
         distinctness([(t, v) for v in tabs], n, f"thread {t}", typ, f"{typ}{n}:thread")
+    nbefore = len(out)
+    for (t, typ, n, sub, where) in ctx_groups:
+        distinctness([(t, v) for v in sub], n, where, typ, f"{typ}{n}:site")
+        if len(out) > nbefore + 4:
+            break
     # whole run, per n, over threads and types
     byn = {}
     for d in sorted(good, key=lambda d: d["s1"]):
